@@ -26,7 +26,7 @@ def file_text(lines):
 
 
 def spec_files(files):
-    return [[{"n": ln["n"], "v": ln["v"], "d": bool(ln.get("d"))} for ln in f] for f in files]
+    return [[{"n": ln["n"], "v": ln["v"], "d": bool(ln.get("d")), "u": bool(ln["t"] == "bool" and ln["v"] == "n" and ln.get("notset", True))} for ln in f] for f in files]
 
 
 def explore(run, items, maxlen, tag, invariant="ExactlyOne", max_per_prog=None, workers=1):
